@@ -3,6 +3,7 @@ CONSTANTS
   InstFS <- MCInstFS
   Spell <- MCSpell
   LoadFix = TRUE
+  LoadReach <- AllPlacements
   InstSet = {}
   SpellSet = {}
   MaxUnits = 0
